@@ -147,3 +147,50 @@ def _canary_pick(events, pred):
             if pred(ev):
                 return i
     return 0
+
+
+def validate_stateful_trace(run, scratch, name, module, events, n_prefix, corrupt_index, corrupt, signature=None,
+                            timeout=1800):
+    """B3 for ordered logs: the trace spec consumes the log line by line (variable l); a line that no action
+    can consume deadlocks it. Success = TLC finishes without error having consumed every line. A second run
+    with one corrupted line must deadlock exactly there (binding canary).
+    n_prefix: number of leading lines consumed by the initial state (load events)."""
+    import re as _re
+
+    def once(evs, tag):
+        path = scratch.path(f"trace-{name}-{tag}.ndjson")
+        write_ndjson(path, evs)
+        r = run_tlc(scratch, module, workers=1, timeout=timeout, env={"TRACE": path}, dfs=True, deadlock=True)
+        stuck = None
+        if r.violation and "Deadlock" in r.violation:
+            m = _re.findall(r"/\\ l = (\d+)", r.out)
+            stuck = int(m[-1]) if m else -1
+        elif r.violation or r.error:
+            raise ToolError(f"{name}: {r.violation or r.error}\n{r.out[-1500:]}")
+        return r, stuck
+
+    r, stuck = once(events, "real")
+    run.add_tlc(name, r)
+    run.steps[-1]["events"] = len(events)
+    if stuck is None and r.distinct < len(events) - n_prefix + 1:
+        raise ToolError(f"{name}: TLC consumed {r.distinct} states for {len(events)} events")
+    bad = copy.deepcopy(events)
+    bad[corrupt_index] = corrupt(bad[corrupt_index])
+    _, cstuck = once(bad, "canary")
+    ok = cstuck == corrupt_index + 1
+    run.canary[name] = {"corrupted_line_rejected_at_that_line": ok}
+    if not ok and stuck is None:
+        raise ToolError(f"{name}: corrupted line {corrupt_index + 1} was not rejected there (stuck at {cstuck})")
+    run.traces += len(events)
+    if stuck is not None:
+        # the log line the specification could not consume, with its context (the iterator it belongs to)
+        i = stuck - 1
+        j = i
+        while j > 0 and events[j].get("t") != "begin":
+            j -= 1
+        sig = {"step": name}
+        if signature:
+            sig.update(signature(events[j]))
+        run.violation(name, {"signature": sig, "unconsumed_line": stuck, "event": events[i] if 0 <= i < len(events) else None,
+                             "iterator_begun_at": events[j], "lines_from_begin": events[j:i + 1][:12]})
+    return stuck
